@@ -347,10 +347,9 @@ func checkBound(r *Run, fam string, b []byte, res costResult, depth int) {
 }
 
 func genC09(r *Run) {
-	sizes := []int{64, 512, 1024, 4096, 16384, 65507}
-	if !r.Thorough() {
-		sizes = []int{64, 512, 1024, 4096, 16384, 65507}
-	}
+	// a fine ladder at the small end: a cost that doubles per nesting level or per element must be seen while it is
+	// still cheap to run (a family that breaks the bound is not run at larger sizes)
+	sizes := []int{64, 96, 128, 192, 256, 384, 512, 1024, 4096, 16384, 65507}
 	worstAlloc, worstSize := map[string]float64{}, map[string]float64{}
 	evals := 0
 	failedFam := map[string]bool{} // once a family breaks the bound, larger members are not run (they may take minutes and gigabytes)
